@@ -20,7 +20,14 @@ Streams
           source"), and every `next_level` is compared with the model `FindLink.flAlgoStep` (op
           `FLSTEP`: state rebuilt from the implementation's own labelled levels, relocation oracle :=
           the recorded return values of this run): emitted positions, added features, sub-nets with
-          a shortage, and - when the optimum is unique - the links.
+          a shortage, and - when the optimum is unique - the links.  The same op judges the
+          implementation's labelled level by `flStep` in OPTIMALITY mode (field `implopt`): where the
+          side condition of Props/C14Opt.flAlgo_accepted_opt_partial holds (field `local`: every added
+          feature is seen by the sources of one sub-net only) the links must be a minimum-cost
+          assignment on the emitted level; where it does not, a non-optimal level is counted
+          (`flstep_nonlocal_nonoptimal`), not flagged - C14 does not claim optimality
+          (design-notes/c14_opt_witness.py).  Movies whose every step keeps the side condition also go
+          through `FLRUN` with opt=1.
   call  : `FindLinker.get_relocate_candidates` driven directly on tie-heavy small images (2-D and
           3-D) with planted sources / background features at exact-boundary distances; same
           comparison, plus the call-level oracle.
@@ -78,6 +85,10 @@ ASSUMPTIONS = [
     "skipped; links are compared only when the optimum of every sub-net is unique (driver flag "
     "tied), positions / added features / sub-nets with a shortage always; masses cross the protocol "
     "rounded (they do not influence the labelling)",
+    "optimality of the links on the emitted level is judged (flStep with noOpt=false, per step and - "
+    "when every step qualifies - FLRUN opt=1 on the movie) only for steps that pass the FLSTEP "
+    "comparison, stay within the neighbour cap / size limit and keep the side condition addedLocalB "
+    "of Props/C14Opt.flAlgo_accepted_opt_partial; other steps are counted, not judged",
 ]
 MIN_NONTRIVIAL = 20
 
@@ -946,13 +957,16 @@ def flstep_compare(ctx, res, inp, levels, log, store):
     the state is rebuilt from the implementation's own labelled levels, the relocation oracle is
     instantiated with what get_relocate_candidates returned in this run.  Compared: the emitted
     positions, which of them were added, and (when the optimum is unique) which trajectory every
-    feature continues.  Returns True if a violation was recorded."""
+    feature continues; then the implementation's level is judged by flStep in optimality mode where
+    the hypotheses of Props/C14Opt.flAlgo_accepted_opt_partial hold.  Returns (violation recorded,
+    every step of the movie was compared and keeps those hypotheses).""" 
     cfg = linkcommon.cfg_tokens(dict(sr=inp["sr"], memory=inp["memory"]), opt=False)
 
     def pts_s(pts):
         return " ".join(",".join(str(int(c)) for c in p) for p in pts)
 
     used = set()
+    all_opt = True
     for k, (t, pts, labels, _) in enumerate(levels):
         if k == 0:
             used |= set(labels)
@@ -960,6 +974,7 @@ def flstep_compare(ctx, res, inp, levels, log, store):
         if t not in log["linked"]:
             # frame never reached next_level
             used |= set(labels)
+            all_opt = False
             continue
         handed = log["linked"][t]
         line = ["FLSTEP " + cfg]
@@ -973,6 +988,10 @@ def flstep_compare(ctx, res, inp, levels, log, store):
             ms = [] if rec["coords"] is None else [max(0, int(round(float(v)))) for v in rec["mass"]]
             line.append("ORC %s | %s | %s" % (pts_s(np.rint(rec["pos"]).astype(int).tolist()),
                                                pts_s(cands), " ".join(map(str, ms))))
+        hset = set(tuple(h) for h in handed)
+        line.append("OUT t=%d | %s | %s | %s" % (
+            t, pts_s(pts), " ".join(map(str, labels)),
+            " ".join(str(i) for i, p in enumerate(pts) if tuple(p) not in hset)))
         resp = ctx.ask(" ; ".join(line))
         if not resp.startswith("ok"):
             raise RuntimeError("FLSTEP: " + resp)
@@ -981,6 +1000,7 @@ def flstep_compare(ctx, res, inp, levels, log, store):
         if m["capped"] == "1" or m["oversize"] == "1":
             res.stat("flstep_capped_or_oversize")
             used |= set(labels)
+            all_opt = False
             continue
         mp = [tuple(int(c) for c in q.split(",")) for q in m["dsts"].split(";") if q]
         ml = [int(x) for x in m["labels"].split(",") if x]
@@ -1018,9 +1038,35 @@ def flstep_compare(ctx, res, inp, levels, log, store):
                           model=dict(points=mp, labels=ml, added=sorted(madd), resp=resp),
                           broken="FindLinkAlgo.flAlgoStep",
                           signature=dict(what="flstep-differs", detail=why.split(":")[0]))
-            return True
+            return True, False
+        # ---- optimality of the implementation's links on the emitted level (Props/C14Opt.lean)
+        if m["implopt"] not in ("ok", "bad"):
+            raise RuntimeError("FLSTEP implopt: " + resp)
+        res.stat("flstep_local", int(m["local"]))
+        res.stat("flstep_lostonly", int(m["lostonly"]))
+        if radd:
+            res.stat("flstep_local_with_added", int(m["local"]))
+        if m["local"] == "1":
+            res.stat("flstep_opt_judged")
+            if m["implopt"] == "bad":
+                res.violation("correspondence-break",
+                              "find_link level t=%d: the links are not a minimum-cost assignment on "
+                              "the emitted level although every added feature is seen by the sources "
+                              "of one sub-net only (flAlgo_accepted_opt_partial: the model's are); "
+                              "the direct oracle accepts the output" % t,
+                              impl=dict(points=rp, labels=labels, added=sorted(radd)),
+                              model=dict(points=mp, labels=ml, added=sorted(madd), resp=resp),
+                              broken="Relocate.flStep (opt)",
+                              signature=dict(what="flstep-opt-rejects"))
+                return True, False
+        else:
+            all_opt = False
+            res.stat("flstep_nonlocal")
+            if m["implopt"] == "bad":
+                # the witness of Props/C14Opt.flAlgo_opt_witness in the wild: not a C14 violation
+                res.stat("flstep_nonlocal_nonoptimal")
         used |= set(labels)
-    return False
+    return False, all_opt
 
 
 def run_movie_case(ctx, inp):
@@ -1079,8 +1125,23 @@ def run_movie_case(ctx, inp):
                       signature=dict(what="monitor-rejects"))
         return res
     # ---- 2b. function mode for the labelling: every next_level against FindLink.flAlgoStep
-    if flstep_compare(ctx, res, inp, levels, log, store):
+    viol, all_opt = flstep_compare(ctx, res, inp, levels, log, store)
+    if viol:
         return res
+    # ---- 2c. the monitor in optimality mode on the whole movie, where the hypotheses of
+    #          Props/C14Opt.flAlgo_run_accepted_opt_partial hold at every step
+    if all_opt and nfr > 1:
+        line[0] = "FLRUN " + linkcommon.cfg_tokens(dict(sr=inp["sr"], memory=inp["memory"]), opt=True)
+        m = common.kv(ctx.ask(" ; ".join(line)))
+        res.stat("flrun_opt_movies")
+        if m.get("verdict") != "ok":
+            res.violation("correspondence-break", "the labelling monitor in optimality mode (FLRUN "
+                          "opt=1) rejects the output at level %s although every step keeps the side "
+                          "condition of flAlgo_run_accepted_opt_partial; the direct oracle accepts it"
+                          % m.get("step"),
+                          impl=[(t, p, l) for (t, p, l, _) in levels], model=m,
+                          broken="Relocate.flStep (opt)", signature=dict(what="monitor-opt-rejects"))
+            return res
     # ---- 3. recovery / detect-then-link (sep regime only)
     spurious = False
     if inp["regime"] == "sep":
